@@ -854,7 +854,18 @@ func (c *wsConn) handleWsConn(ctx context.Context) {
 	}
 
 	// start frame executor
-	go c.frameExecutor(ctx)
+	execDone := make(chan struct{})
+	go func() {
+		defer close(execDone)
+		c.frameExecutor(ctx)
+	}()
+	// on exit, stop the frame executor before the deferred closeChans/closeInFlight
+	// run: a response it is still handling must not register a channel handler or
+	// deliver a result after those have swept the tables
+	defer func() {
+		cancel()
+		<-execDone
+	}()
 
 	// wait for the first message
 	go c.nextMessage()
